@@ -91,7 +91,7 @@ func (g *Gen) leaves(t types.Type) []Leaf {
 	case *types.Interface:
 		out = []Leaf{{".tag", SInt}, {".ref", SInt}}
 	case *types.Slice:
-		out = []Leaf{{".len", SInt}, {".off", SInt}, {".nil", SBool}}
+		out = []Leaf{{".len", SInt}, {".nil", SBool}}
 		for _, l := range g.leaves(u.Elem()) {
 			out = append(out, Leaf{".elem" + l.Path, arrOf(l.S)})
 		}
@@ -148,7 +148,7 @@ func (g *Gen) fromLeaves1(t types.Type, terms []string) (Val, []string) {
 		return IfV{terms[0], terms[1]}, terms[2:]
 	case *types.Slice:
 		n := len(g.leaves(u.Elem()))
-		return SliceV{Elem: u.Elem(), Len: terms[0], Off: terms[1], Nil: terms[2], Elems: append([]string{}, terms[3:3+n]...)}, terms[3+n:]
+		return SliceV{Elem: u.Elem(), Len: terms[0], Off: "0", Nil: terms[1], Elems: append([]string{}, terms[2:2+n]...)}, terms[2+n:]
 	case *types.Array:
 		n := len(g.leaves(u.Elem()))
 		return ArrV{Elem: u.Elem(), Elems: append([]string{}, terms[:n]...)}, terms[n:]
@@ -186,7 +186,10 @@ func (g *Gen) toLeaves(v Val) []string {
 		}
 		return []string{x.Addr}
 	case SliceV:
-		return append([]string{x.Len, x.Off, x.Nil}, x.Elems...)
+		if x.Off != "0" {
+			panic(unsupported("slice with non-zero offset used as a value"))
+		}
+		return append([]string{x.Len, x.Nil}, x.Elems...)
 	case ArrV:
 		return append([]string{}, x.Elems...)
 	case StructV:
